@@ -419,3 +419,28 @@ func c12Extra(pc *propCheck) {
 	pc.Extra["bounded"] = pc.Bounded
 	pc.Obls = append(pc.Obls, o)
 }
+
+// c08Extra: (coq.File).Write, which assembles notice, imports, header, declarations and footer on an
+// io.Writer, is not under contract (the writer's effects are out of reach). A bounded stand-in,
+// labelled bounded and never counted as proved: the witness packages tagged (File).Write are
+// translated by the goose binary built from this tree and the emitted files must contain the
+// expected header lines, Require lines, declarations and footer, in order.
+func c08Extra(pc *propCheck) {
+	con := &Contract{FuncName: "(File).Write", Pkg: translatorPkgs[1]}
+	vc := newVC(pc.P, "(File).Write")
+	pc.Results = append(pc.Results, &funcResult{vc: vc, con: con})
+	o := vc.oblige("bounded", "(File).Write/bounded[notice, Require lines, header, declarations and footer of the witness pool]", "true", "true", "")
+	rr := pc.replayTranslator(o, con)
+	switch {
+	case rr.Confirmed:
+		o.Goal = "false"
+		o.Result = &SolverResult{Status: "unknown", Solver: "bounded-witness-pool", Output: rr.Detail}
+	case rr.Tried:
+		o.Result = &SolverResult{Status: "unsat", Solver: "bounded-witness-pool", Output: "witness packages header_plain, header_import translate to files with the expected lines (bounded, not a proof)"}
+	default:
+		o.Result = &SolverResult{Status: "unsat", Solver: "bounded-witness-pool", Output: "no witness available: nothing checked"}
+	}
+	pc.Bounded = append(pc.Bounded, "(coq.File).Write: no contract (io.Writer effects); witness packages header_plain and header_import through the real binary (bounded)")
+	pc.Extra["bounded"] = pc.Bounded
+	pc.Obls = append(pc.Obls, o)
+}
